@@ -205,6 +205,17 @@ def run(ctx):
         cases.append({"id": "rt%d" % j, "kind": "bits", "bits": B(bits), "dt": dt, "target_ok": isinstance(t, int), "target": le(t), "back": B(back[1]) if back[0] == "ok" else [],
                       "newbits": B(nb[1]) if nb[0] == "ok" else [], "only_target": False})
         ctx.nontriv(("retarget-sign-boundary", j))
+    # the timespans at which the adjustment factor is exactly 1, 1/4 and 4, on encodings that are not a fixed point of the
+    # computation: targets above the proof-of-work limit (regtest / signet bits) and non-normalised compact encodings
+    for j, hexbits in enumerate(["ffff7f20", "ae77031e", "ff00001c", "2301001a", "ffff001d", "ffff7f1d", "0000011d", "0080001c", "cb04041b"]):
+        for dt in (1209600, 302400, 4838400, 1209599):
+            bits = bytes.fromhex(hexbits)
+            t = H.bits_to_target(bits)
+            nb = outcome(H.calculate_new_bits, bits, dt)
+            back = outcome(H.target_to_bits, t)
+            cases.append({"id": "fx%d.%d" % (j, dt), "kind": "bits", "bits": B(bits), "dt": dt, "target_ok": isinstance(t, int), "target": le(t), "back": B(back[1]) if back[0] == "ok" else [],
+                          "newbits": B(nb[1]) if nb[0] == "ok" else [], "only_target": False})
+            ctx.nontriv(("retarget-unit-factor", j, dt))
     # headers: regtest-difficulty headers mined by the harness, chains with one broken link / one bad pow
     def mine(prev, good=True):
         while True:
